@@ -743,7 +743,12 @@ class AddressControlConstructionToken(CompositeBaseToken):
         [AddressKeywordToken, BracketStartToken, ExpressionToken, SeparatorToken,
          ExpressionToken, BracketFinishToken],
         [AddressKeywordToken, BracketStartToken, ExpressionToken, SeparatorToken,
-         ExpressionToken, SeparatorToken, IterableExpressionToken, BracketFinishToken]
+         ExpressionToken, SeparatorToken, ExpressionToken, BracketFinishToken],
+        [AddressKeywordToken, BracketStartToken, ExpressionToken, SeparatorToken,
+         ExpressionToken, SeparatorToken, ExpressionToken, SeparatorToken, ExpressionToken, BracketFinishToken],
+        [AddressKeywordToken, BracketStartToken, ExpressionToken, SeparatorToken,
+         ExpressionToken, SeparatorToken, ExpressionToken, SeparatorToken, ExpressionToken, SeparatorToken,
+         ExpressionToken, BracketFinishToken]
     ]
 
     @property
@@ -756,7 +761,8 @@ class AddressControlConstructionToken(CompositeBaseToken):
 
     @property
     def expressions(self):
-        return self.value[6].expressions if len(self.value) > 6 else []
+        # ADDRESS takes at most three optional arguments: the kind of reference, the style, the sheet
+        return self.value[6:-1:2]
 
 
 class CountControlConstructionToken(CompositeBaseToken):
